@@ -413,6 +413,25 @@ def gen_c13(tier, seed):
             probe = cases + inner
             for p in (probe if len(probe) <= 8 else rnd.sample(probe, 8)):
                 scs.append(pure(f"t{t}-{fsn}-{len(scs)}", "is_match", calls=fs, path=p))
+            # one set answers for every case of a tree in turn: the answer for a path must not
+            # depend on what was asked before (each prefix of a random visiting order)
+            order = list(probe)
+            rnd.shuffle(order)
+            for i in range(1, min(len(order), 6)):
+                scs.append(pure(f"t{t}-{fsn}-seq{i}-{len(scs)}", "is_match", calls=fs, path=order[i],
+                                earlier=order[:i]))
+    # overlapping positive and skip filters, asked in both orders
+    for t in range(60 if not big else 400):
+        inner, cases = rand_tree_paths(rnd)
+        if len(cases) < 2:
+            continue
+        a, b = rnd.sample(cases, 2)
+        common = a.split("::")[0]
+        fs = [{"inclusive": True, "kind": "regex", **dict(zip(("text", "ast"), pattern_of([[lit(common)]])))},
+              {"inclusive": False, "kind": "exact", "text": b} if rnd.random() < 0.0 else
+              {"inclusive": False, "kind": "regex", **dict(zip(("text", "ast"), pattern_of([[lit(b), {"t": "eol"}]])))}]
+        for first, second in ((a, b), (b, a)):
+            scs.append(pure(f"ov{t}-{len(scs)}", "is_match", calls=fs, path=second, earlier=[first]))
     return scs
 
 
